@@ -83,4 +83,9 @@ void member1(const char* cn, const char* mn, const char* an, F f) {
   if constexpr (std::is_invocable_v<F, const C&, const A&>)
     std::cout << "MEM " << cn << " " << mn << " " << an << " -> " << tname<std::decay_t<std::invoke_result_t<F, const C&, const A&>>>() << "\n";
 }
+template <class C, class... A, class F>
+void memberN(const char* cn, const char* mn, const char* an, F f) {
+  if constexpr (std::is_invocable_v<F, const C&, const A&...>)
+    std::cout << "MEM " << cn << " " << mn << " " << an << " -> " << tname<std::decay_t<std::invoke_result_t<F, const C&, const A&...>>>() << "\n";
+}
 }  // namespace rd
